@@ -34,7 +34,8 @@
 //!       p: the REAL FetchPlan bookkeeping on a script over f (note_full_needed), t (note_topology), c (note_client_routes
 //!          with a fresh pair): view after every operation  <F|P>:<routes ids>:<topology 0|1>
 //!       r: one REAL poll of a PendingFetches whose slots hold scripted futures; each of the three digits is
-//!          0 absent, 1 in flight and not complete, 2 complete (full != 0 builds the Full variant):
+//!          0 absent, 1 in flight and not complete, 2 complete (full != 0 builds the Full variant and ignores the
+//!          other two digits: 9 + 2 = 11 distinct configurations):
 //!          <outcome 0 pending 1 Full 2 ClientRoutes 3 Topology> <still in flight: full routes topology as 0|1>
 //!   S <serial> <n> <mode>   multi-thread stress: a producer thread merges the tags 0..n-1 and drops
 //!       the sender; the consumer (tokio current-thread runtime on another OS thread) receives until
@@ -45,7 +46,8 @@
 //!       consecutive tags (lossless run-length encoding of the received Vec).
 //!   Z <serial> <rounds> <concurrent> <mode>   end-to-end (the channel inside the driver, between the metadata worker
 //!       and the cluster worker): a real Session on a mocknode cluster; every round adds a node to the mock
-//!       cluster and issues <concurrent> Session::refresh_metadata calls at once.
+//!       cluster and issues <concurrent> Session::refresh_metadata calls at once (mode 0 with >= 2 rounds: the last
+//!       round removes the node added last instead - the published state must shrink).
 //!       mode 1: the consumer (cluster worker) is kept busy by a slow address translator while four staged refreshes are
 //!       served back to back, so that several full fetches with response channels are merged in the slot.
 //!       mode 3: like mode 1, but Session::use_keyspace calls alternate with the refreshes (the select loop of the
@@ -512,8 +514,16 @@ async fn run_e2e_once(serial: u64, rounds: usize, concurrent: usize, mode: u64) 
     let mut r = Rng::new(serial);
     let mut toks = Vec::new();
     let mut clean = true;
-    for _ in 0..rounds {
+    let mut removed = 0usize;
+    for round in 0..rounds {
+        // mode 0: the last round REMOVES the node added last (it stops listening and disappears from system.peers)
+        // instead of adding one: the published state must shrink
+        let removal = mode == 0 && rounds >= 2 && round == rounds - 1;
         let idx = cluster.spec().nodes.len();
+        if removal {
+            cluster.remove_node(idx - 1, mock::CutKind::Fin);
+            removed += 1;
+        }
         let node = mock::NodeSpec {
             host_id: mock::host_id_for(idx),
             dc: "dc1".into(),
@@ -523,7 +533,9 @@ async fn run_e2e_once(serial: u64, rounds: usize, concurrent: usize, mode: u64) 
             msb_ignore: 12,
             metadata_id_ext: None,
         };
-        cluster.add_node(node).await.map_err(|e| format!("add_node: {e}"))?;
+        if !removal {
+            cluster.add_node(node).await.map_err(|e| format!("add_node: {e}"))?;
+        }
         let mut tasks = Vec::new();
         let fail_left = Arc::new(AtomicUsize::new(0));
         if mode == 2 {
@@ -621,7 +633,7 @@ async fn run_e2e_once(serial: u64, rounds: usize, concurrent: usize, mode: u64) 
             }
         }
         let seen = session.get_cluster_state().get_nodes_info().len();
-        let mock_nodes = cluster.spec().nodes.len();
+        let mock_nodes = cluster.spec().nodes.len() - removed;
         if completed != asked || (ok != asked && mode != 2) || seen != mock_nodes || final_ok & 1 == 0 {
             clean = false;
         }
@@ -855,7 +867,7 @@ fn main() {
             }
         }
     }
-    // the fetch plan: every script over {f, t, c} up to length 8 (10), and all 27 slot configurations of a poll
+    // the fetch plan: every script over {f, t, c} up to length 8 (10), and the 11 distinct slot configurations of a poll
     {
         let max = if thorough { 10 } else { 8 };
         let mut stack: Vec<String> = vec![String::new()];
@@ -872,14 +884,11 @@ fn main() {
                 stack.push(n);
             }
         }
-        for a0 in 0..3 {
-            for a1 in 0..3 {
-                for a2 in 0..3 {
-                    let c = format!("F r{}{}{}", a0, a1, a2);
-                    let o = run_case(&c);
-                    out.case(&c, &o);
-                }
-            }
+        // the 11 distinct configurations: 9 of the Partial variant, 2 of the Full variant (its other two digits are ignored)
+        for c in ["000", "001", "002", "010", "011", "012", "020", "021", "022", "100", "200"] {
+            let c = format!("F r{}", c);
+            let o = run_case(&c);
+            out.case(&c, &o);
         }
     }
     // seeded long scripts
@@ -951,7 +960,7 @@ fn main() {
         } else if k % 3 == 2 {
             format!("Z {:x} {:x} {:x} 2", serial, 2 + k % 2, [1u64, 3, 6][((k / 3) % 3) as usize])
         } else {
-            format!("Z {:x} {:x} {:x} 0", serial, 3 + k % 4, [1u64, 4, 16][((k / 2) % 3) as usize])
+            format!("Z {:x} {:x} {:x} 0", serial, 3 + k % 4, [1u64, 4, 16][((k / 3) % 3) as usize])
         };
         let o = run_case(&c);
         out.case(&c, &o);
